@@ -212,7 +212,7 @@ def build_model(log):
         if stamp_ok('ml', key) and os.path.exists(os.path.join(ml, 'rsm')):
             return True, ''
         os.makedirs(ml, exist_ok=True)
-        res, out, _ = coq_build(['Model/Scenario.vo', 'Gen/Kernels_gen.vo', 'Gen/Params_gen.vo', 'Model/Spec.vo', 'Model/Queue.vo'], log)
+        res, out, _ = coq_build(['Model/Scenario.vo', 'Gen/Kernels_gen.vo', 'Gen/Params_gen.vo', 'Model/Spec.vo', 'Model/Queue.vo', 'Model/Lifecycle.vo'], log)
         if not all(res.values()):
             return False, 'model does not compile: ' + out[-3000:]
         rc, out, dt = sh(f'timeout 600 coqc -Q {COQ} RS {COQ}/Extract/Extract.v', cwd=ml)
